@@ -337,7 +337,9 @@ def newMd (cfg : Cfg) (form : Val) (nks nvs : List Val) : Val :=
 theorem attachMeta_eq (cfg : Cfg) (m form : Val) (nks nvs : List Val) :
     attachMeta cfg m form nks nvs = form.setMd (some (newMd cfg form nks nvs)) := by
   unfold attachMeta newMd
-  split <;> rfl
+  cases form.md with
+  | none => rfl
+  | some x => cases x <;> rfl
 
 theorem newMd_ok (cfg : Cfg) {lo hi : Nat} {form : Val} {st'' : St} {nks nvs : List Val}
     (hf : OkPost lo form st'') (he : EntriesOK lo hi nks nvs) (hlo : lo ≤ hi) :
@@ -423,7 +425,8 @@ theorem attachMeta_ok (cfg : Cfg) {lo hi start : Nat} {m form : Val} {st'' : St}
     simp only [RangeOKO]
     exact ⟨Or.inr (Or.inl hsy), hrok⟩
   refine ⟨?_, ?_, ?_, ?_, ?_, ?_, ?_⟩
-  · apply rangeOK_setHdr _ _ rfl _ rfl h1
+  · refine rangeOK_setHdr (form.setMd (some (.map mh mmd K V)))
+      { (form.setMd (some (.map mh mmd K V))).hdr with s := start } rfl ?_ rfl h1
     simp only [hdr_setMd]; omega
   · simp only [hdr_setHdr, hdr_setMd]; exact hf.nsyn
   · simp only [hdr_setHdr, hdr_setMd]; exact hf.he
